@@ -157,6 +157,32 @@ func (c *Ctl) Step(extraFn func() []Action) bool {
 	return true
 }
 
+// Drain releases parked seams one at a time in canonical order (label, then
+// arrival), waiting for quiescence after each, until none is parked — WITHOUT
+// recording decision points. Use it when the order of the pending events is
+// not the subject of the exploration (only the harness actions are).
+func (c *Ctl) Drain() {
+	for {
+		synctest.Wait()
+		c.mu.Lock()
+		if len(c.pending) == 0 {
+			c.mu.Unlock()
+			return
+		}
+		sort.SliceStable(c.pending, func(i, j int) bool {
+			if c.pending[i].label != c.pending[j].label {
+				return c.pending[i].label < c.pending[j].label
+			}
+			return c.pending[i].seq < c.pending[j].seq
+		})
+		p := c.pending[0]
+		c.pending = c.pending[1:]
+		c.Trace = append(c.Trace, "("+p.label+")")
+		c.mu.Unlock()
+		close(p.ch)
+	}
+}
+
 // ReleaseAll releases every parked seam (teardown).
 func (c *Ctl) ReleaseAll() {
 	c.mu.Lock()
